@@ -103,28 +103,49 @@ func (p proj) coq() string {
 	return fmt.Sprintf("(%d%%N, %d%%N, %s)", p.cls, p.cookie, pk(p.data))
 }
 
+type ansT struct {
+	code int
+	size int64
+}
+
 type obsT struct {
-	load              int
-	readonly          bool
-	datLen, idxLen    int64
-	reads             []proj
-	write             int
-	fresh             proj
-	datLen2, idxLen2  int64
+	load             int
+	readonly         bool
+	datLen, idxLen   int64
+	reads            []proj
+	post             []ansT
+	reads2           []proj
+	datLen2, idxLen2 int64
+	load3            int
+	readonly3        bool
+	reads3           []proj
+	datLen3, idxLen3 int64
+}
+
+func projs(ps []proj) string {
+	rs := make([]string, len(ps))
+	for i, r := range ps {
+		rs[i] = r.coq()
+	}
+	return hx.List(rs)
 }
 
 func (o *obsT) coq() string {
-	rs := make([]string, len(o.reads))
-	for i, r := range o.reads {
-		rs[i] = r.coq()
+	as := make([]string, len(o.post))
+	for i, a := range o.post {
+		as[i] = fmt.Sprintf("(%d%%N, %s)", a.code, hx.Z(a.size))
 	}
-	return fmt.Sprintf("{| o_load := %d; o_readonly := %s; o_dat_len := %d; o_idx_len := %d; o_reads := %s; o_write := %d; o_fresh := %s; o_dat_len2 := %d; o_idx_len2 := %d |}",
-		o.load, hx.Bool(o.readonly), o.datLen, o.idxLen, hx.List(rs), o.write, o.fresh.coq(), o.datLen2, o.idxLen2)
+	if o.load != 0 {
+		o.load3 = 1
+	}
+	return fmt.Sprintf("{| o_load := %d; o_readonly := %s; o_dat_len := %d; o_idx_len := %d; o_reads := %s; o_post := %s; o_reads2 := %s; o_dat_len2 := %d; o_idx_len2 := %d; o_load3 := %d; o_readonly3 := %s; o_reads3 := %s; o_dat_len3 := %d; o_idx_len3 := %d |}",
+		o.load, hx.Bool(o.readonly), o.datLen, o.idxLen, projs(o.reads), hx.List(as), projs(o.reads2), o.datLen2, o.idxLen2,
+		o.load3, hx.Bool(o.readonly3), projs(o.reads3), o.datLen3, o.idxLen3)
 }
 
 type cutT struct {
-	dcut, icut int
-	obs        obsT
+	dcut, icut, drop2 int
+	obs               obsT
 }
 
 type env struct {
@@ -195,22 +216,50 @@ func (e *env) read(vid needle.VolumeId, key uint64) (p proj) {
 	return classify(count, err, n)
 }
 
-// one crash point on the real code
-func (e *env) observe(dat, idx []byte, dcut, icut int, keys []uint64, fresh *opT) (o obsT) {
+// the answer to one operation on a mounted volume, numbered like ores_code in model/VolumeCrash.v
+func (e *env) apply(vid needle.VolumeId, o *opT) ansT {
+	if o.write {
+		unchanged, err := e.s.WriteVolumeNeedle(vid, o.needle(), false)
+		switch {
+		case err == nil && !unchanged:
+			return ansT{0, 0}
+		case err == nil:
+			return ansT{1, 0}
+		case strings.Contains(err.Error(), "is read only"):
+			return ansT{2, 0}
+		}
+		return ansT{3, 0}
+	}
+	size, err := e.s.DeleteVolumeNeedle(vid, o.needle())
+	switch {
+	case err == nil:
+		return ansT{0, int64(size)}
+	case strings.Contains(err.Error(), "is read only"):
+		return ansT{2, int64(size)}
+	}
+	return ansT{3, int64(size)}
+}
+
+func (e *env) mount(vid needle.VolumeId) (load int) {
+	defer func() {
+		if r := recover(); r != nil {
+			load = 2
+		}
+	}()
+	if err := e.s.MountVolume(vid); err != nil {
+		return 1
+	}
+	return 0
+}
+
+// one crash point on the real code: reopen, further operations, second stop, second reopen
+func (e *env) observe(dat, idx []byte, dcut, icut, drop2 int, keys []uint64, post []*opT) (o obsT) {
 	vid := e.nextVid()
 	hx.Must(os.WriteFile(e.base(vid)+".dat", dat[:dcut], 0644))
 	hx.Must(os.WriteFile(e.base(vid)+".idx", idx[:icut], 0644))
-	func() {
-		defer func() {
-			if r := recover(); r != nil {
-				o.load = 2
-			}
-		}()
-		if err := e.s.MountVolume(vid); err != nil {
-			o.load = 1
-		}
-	}()
+	o.load = e.mount(vid)
 	if o.load != 0 {
+		o.load3 = 1
 		e.removeFiles(vid)
 		return
 	}
@@ -220,19 +269,34 @@ func (e *env) observe(dat, idx []byte, dcut, icut int, keys []uint64, fresh *opT
 	for _, k := range keys {
 		o.reads = append(o.reads, e.read(vid, k))
 	}
-	unchanged, err := e.s.WriteVolumeNeedle(vid, fresh.needle(), false)
-	switch {
-	case err == nil && !unchanged:
-		o.write = 0
-	case err == nil:
-		o.write = 1
-	case strings.Contains(err.Error(), "is read only"):
-		o.write = 2
-	default:
-		o.write = 3
+	for _, p := range post {
+		o.post = append(o.post, e.apply(vid, p))
 	}
-	o.fresh = e.read(vid, fresh.key)
+	for _, k := range keys {
+		o.reads2 = append(o.reads2, e.read(vid, k))
+	}
 	o.datLen2, o.idxLen2 = fileSize(e.base(vid)+".dat"), fileSize(e.base(vid)+".idx")
+	// the second stop: the data file whole, the index short of its last drop2 bytes
+	hx.Must(e.s.UnmountVolume(vid))
+	keep := o.idxLen2 - int64(drop2)
+	if keep < 0 {
+		keep = 0
+	}
+	hx.Must(os.Truncate(e.base(vid)+".idx", keep))
+	for _, ext := range []string{".sdx", ".ldb", ".cpd", ".cpx", ".note"} {
+		os.RemoveAll(e.base(vid) + ext)
+	}
+	o.load3 = e.mount(vid)
+	if o.load3 != 0 {
+		e.removeFiles(vid)
+		return
+	}
+	v = e.s.GetVolume(vid)
+	o.readonly3 = v.IsReadOnly()
+	o.datLen3, o.idxLen3 = fileSize(e.base(vid)+".dat"), fileSize(e.base(vid)+".idx")
+	for _, k := range keys {
+		o.reads3 = append(o.reads3, e.read(vid, k))
+	}
 	if err := e.s.DeleteVolume(vid); err != nil {
 		panic(err)
 	}
@@ -313,7 +377,7 @@ func (e *env) runHistory(ops []*opT) *history {
 
 var keyCookie = map[uint64]uint32{1: 0x11, 2: 0x12345678, 3: 0xfffffff3}
 
-func genOps(r *hx.Rng, nops int) []*opT {
+func genOps(r *hx.Rng, nops int, empties bool) []*opT {
 	var ops []*opT
 	last := map[uint64][]byte{}
 	live := map[uint64]bool{}
@@ -339,6 +403,9 @@ func genOps(r *hx.Rng, nops int) []*opT {
 			o.data = last[key] // the same bytes again (isFileUnchanged when still live)
 		default:
 			n := r.PickInt([]int{1, 2, 3, 4, 5, 7, 8, 9, 11, 12, 13, 16, 20, 27, 33, 40})
+			if empties && r.Chance(1, 4) {
+				n = 0 // an empty payload: finding 0
+			}
 			o.data = r.Bytes(n)
 		}
 		if r.Chance(1, 6) {
@@ -356,10 +423,10 @@ func genOps(r *hx.Rng, nops int) []*opT {
 	return ops
 }
 
-type cutSpec struct{ dcut, icut int }
+type cutSpec struct{ dcut, icut, drop2 int }
 
 // crash points of a history
-func genCuts(r *hx.Rng, h *history, all bool) []cutSpec {
+func genCuts(r *hx.Rng, h *history, all bool, stride int) []cutSpec {
 	nrec := len(h.ends) - 1
 	seen := map[cutSpec]bool{}
 	var cuts []cutSpec
@@ -367,7 +434,7 @@ func genCuts(r *hx.Rng, h *history, all bool) []cutSpec {
 		if d < 0 || d > len(h.dat) || i < 0 || i > len(h.idx) {
 			return
 		}
-		c := cutSpec{d, i}
+		c := cutSpec{d, i, []int{0, 9, 16, 0, 25, 7}[(d*7+i/16+i)%6]}
 		if !seen[c] {
 			seen[c] = true
 			cuts = append(cuts, c)
@@ -388,7 +455,9 @@ func genCuts(r *hx.Rng, h *history, all bool) []cutSpec {
 	}
 	var dcuts []int
 	for d := h.ends[tail]; d <= len(h.dat); d++ {
-		dcuts = append(dcuts, d)
+		if stride <= 1 || d == len(h.dat) || (d-h.ends[tail])%stride == 0 || d == h.ends[tail+1] || d == h.ends[tail+1]+1 {
+			dcuts = append(dcuts, d)
+		}
 	}
 	for i := 0; i < tail; i++ { // earlier records: the boundary, one byte after, the middle
 		dcuts = append(dcuts, h.ends[i], h.ends[i]+1, (h.ends[i]+h.ends[i+1])/2)
@@ -439,7 +508,7 @@ func trigOf(h *history, c cutSpec) int {
 	return -1
 }
 
-func (e *env) emit(h *history, keys []uint64, fresh *opT, cuts []cutT, kind string) {
+func (e *env) emit(h *history, keys []uint64, post []*opT, cuts []cutT, kind string) {
 	ops := make([]string, len(h.ops))
 	app := make([]string, len(h.ops))
 	canon := make([]string, 0, len(h.ops)+len(cuts))
@@ -455,8 +524,8 @@ func (e *env) emit(h *history, keys []uint64, fresh *opT, cuts []cutT, kind stri
 	cs := make([]string, len(cuts))
 	nontrivial := false
 	for i, c := range cuts {
-		cs[i] = fmt.Sprintf("{| c_dcut := %d; c_icut := %d; c_obs := %s |}", c.dcut, c.icut, c.obs.coq())
-		canon = append(canon, fmt.Sprintf("%d:%d", c.dcut, c.icut))
+		cs[i] = fmt.Sprintf("{| c_dcut := %d; c_icut := %d; c_drop2 := %d; c_obs := %s |}", c.dcut, c.icut, c.drop2, c.obs.coq())
+		canon = append(canon, fmt.Sprintf("%d:%d:%d", c.dcut, c.icut, c.drop2))
 		for _, rd := range c.obs.reads {
 			if c.obs.load == 0 && rd.cls == 0 {
 				nontrivial = true
@@ -471,16 +540,25 @@ func (e *env) emit(h *history, keys []uint64, fresh *opT, cuts []cutT, kind stri
 		idx[i] = fmt.Sprintf("(%d%%N, %d%%N, %s)", binary.BigEndian.Uint64(b), binary.BigEndian.Uint32(b[8:]),
 			hx.Z(int64(int32(binary.BigEndian.Uint32(b[12:])))))
 	}
-	term := fmt.Sprintf("{| c_ops := %s; c_keys := %s; c_fresh := %s; c_cuts := %s; i_dat := %s; i_idx := %s; i_appended := %s |}",
-		hx.List(ops), hx.NList(ks), coqNeedle(fresh, 0), hx.List(cs), pk(h.dat), hx.List(idx), hx.List(app))
+	ps := make([]string, len(post))
+	for i, o := range post {
+		ps[i] = coqOp(o)
+		if o.write {
+			canon = append(canon, fmt.Sprintf("PW%d/%x/%x", o.key, o.cookie, o.data))
+		} else {
+			canon = append(canon, fmt.Sprintf("PD%d", o.key))
+		}
+	}
+	term := fmt.Sprintf("{| c_ops := %s; c_keys := %s; c_post := %s; c_cuts := %s; i_dat := %s; i_idx := %s; i_appended := %s |}",
+		hx.List(ops), hx.NList(ks), hx.List(ps), hx.List(cs), pk(h.dat), hx.List(idx), hx.List(app))
 	e.out.Add(term, strings.Join(canon, ";"), nontrivial, kind)
 }
 
-func (e *env) runCuts(h *history, keys []uint64, fresh *opT, specs []cutSpec) []cutT {
+func (e *env) runCuts(h *history, keys []uint64, post []*opT, specs []cutSpec) []cutT {
 	cuts := make([]cutT, len(specs))
 	nrec := len(h.ends) - 1
 	for i, c := range specs {
-		cuts[i] = cutT{dcut: c.dcut, icut: c.icut, obs: e.observe(h.dat, h.idx, c.dcut, c.icut, keys, fresh)}
+		cuts[i] = cutT{dcut: c.dcut, icut: c.icut, drop2: c.drop2, obs: e.observe(h.dat, h.idx, c.dcut, c.icut, c.drop2, keys, post)}
 		o := &cuts[i].obs
 		e.out.Count("cuts", 1)
 		need := (c.icut + 15) / 16
@@ -508,7 +586,19 @@ func (e *env) runCuts(h *history, keys []uint64, fresh *opT, specs []cutSpec) []
 			for _, rd := range o.reads {
 				e.out.Count(fmt.Sprintf("read-class:%d", rd.cls), 1)
 			}
-			e.out.Count(fmt.Sprintf("fresh-write:%d", o.write), 1)
+			for j, a := range o.post {
+				if post[j].write {
+					e.out.Count(fmt.Sprintf("post-write:%d", a.code), 1)
+				} else if a.size > 0 {
+					e.out.Count("post-delete:deleted", 1)
+				} else {
+					e.out.Count(fmt.Sprintf("post-delete:noop/%d", a.code), 1)
+				}
+			}
+			e.out.Count(fmt.Sprintf("load3:%d/drop%d", o.load3, c.drop2), 1)
+			if o.load3 == 0 && o.readonly3 {
+				e.out.Count("reopened-again:read-only", 1)
+			}
 		}
 	}
 	return cuts
@@ -521,6 +611,85 @@ func witnessOps() []*opT {
 		{key: 1, cookie: keyCookie[1]},
 		{write: true, key: 2, cookie: keyCookie[2], data: []byte("second version")},
 	}
+}
+
+// finding 0: key 2 holds an empty blob when the volume stops
+func witnessEmptyOps() []*opT {
+	return []*opT{
+		{write: true, key: 1, cookie: keyCookie[1], data: []byte("hello")},
+		{write: true, key: 2, cookie: keyCookie[2], data: []byte{}},
+		{write: true, key: 3, cookie: keyCookie[3], data: []byte("x")},
+	}
+}
+
+func wr(key uint64, cookie uint32, data string) *opT {
+	o := &opT{write: true, key: key, cookie: cookie, data: []byte(data)}
+	o.crc = uint32(needle.NewCRC(o.data))
+	return o
+}
+
+// the further operations of the witnesses: rewrite of (deleted) key 1, delete of key 2, a fresh
+// key, a new key, the fresh bytes again (unchanged), a wrong cookie (refused), delete of nothing
+func witnessPost() []*opT {
+	return []*opT{
+		wr(1, keyCookie[1], "again"),
+		{key: 2, cookie: keyCookie[2]},
+		wr(9, 7, "fresh"),
+		wr(3, keyCookie[3], "three"),
+		wr(9, 7, "fresh"),
+		wr(1, keyCookie[1]^0x40, "refused"),
+		{key: 2, cookie: keyCookie[2]},
+	}
+}
+
+// further operations for a history: on each of its keys an overwrite / the last bytes again /
+// a wrong cookie / a delete, a write of the fresh key 9, then one more operation on a key
+// touched before (delete after write, write after delete, overwrite of the fresh key)
+func genPost(r *hx.Rng, ops []*opT) []*opT {
+	last := map[uint64][]byte{}
+	for _, o := range ops {
+		if o.write && o.cookie == keyCookie[o.key] {
+			last[o.key] = o.data
+		}
+	}
+	var post []*opT
+	one := func(key uint64) *opT {
+		switch r.Range(0, 5) {
+		case 0, 1:
+			return wr(key, keyCookie[key], string(r.Bytes(r.PickInt([]int{1, 3, 8, 13, 21}))))
+		case 2:
+			if len(last[key]) > 0 {
+				return wr(key, keyCookie[key], string(last[key]))
+			}
+			return wr(key, keyCookie[key], "same?")
+		case 3:
+			return wr(key, keyCookie[key]^0x40, "other cookie")
+		}
+		return &opT{key: key, cookie: keyCookie[key]}
+	}
+	start := r.Range(0, 2)
+	for j := 0; j < 3; j++ {
+		if r.Chance(3, 4) {
+			post = append(post, one(uint64((start+j)%3)+1))
+		}
+	}
+	post = append(post, wr(9, 7, "fresh"))
+	for n := r.Range(1, 2); n > 0; n-- {
+		k := uint64(r.PickInt([]int{1, 2, 3, 9}))
+		if k == 9 {
+			switch r.Range(0, 2) {
+			case 0:
+				post = append(post, wr(9, 7, "fresh"))
+			case 1:
+				post = append(post, wr(9, 7, "fresher"))
+			default:
+				post = append(post, &opT{key: 9, cookie: 7})
+			}
+		} else {
+			post = append(post, one(k))
+		}
+	}
+	return post
 }
 
 func main() {
@@ -543,21 +712,24 @@ func main() {
 		}
 	}()
 	e := &env{s: s, dir: dir, out: out, vid: 100}
-	keys := []uint64{1, 2, 3}
-	fresh := &opT{write: true, key: 9, cookie: 7, data: []byte("fresh")}
-	fresh.crc = uint32(needle.NewCRC(fresh.data))
+	keys := []uint64{1, 2, 3, 9}
 
-	out.Rule = "cases 0,1 = the crash points of the two repaired findings (fixed history; tombstone last in the index + 5 torn bytes; index entry torn after 7 bytes); then --n random histories (quick: 3..5 operations, thorough: 3..14) of writes (payload 1..40 bytes, 1/6 with a name, 1/8 repeating the key's last bytes, 1/10 with a wrong cookie) and deletes over 3 keys, run on a real Store volume; crash points of a history: every byte of the .dat from the start of its second-to-last record to its end (plus boundary, boundary+1 and middle of earlier records) combined with every number of whole .idx entries that write order allows (thorough: sampled for long histories), plus torn .idx entries, plus points where the index is ahead of the data (correspondence only), plus occasionally a cut inside the super block; each history yields one case (of at most 120 crash points) per class of its crash points (ordinary / tombstone-tail / torn-index); every crash point is a real Store.MountVolume of the truncated files; non-trivial = some reopened volume served a blob; distinct = canonical operations + crash points"
+	out.Rule = "cases 0,1 = the crash points of the two repaired findings (fixed history; tombstone last in the index + 5 torn bytes; index entry torn after 7 bytes); case 2 = the witness of finding 0 (hello / EMPTY / x, stopped cleanly); then --n random histories (quick: 3..5 operations, history 0 has 14..16 so that the 10-entry window of the integrity check is exceeded; thorough: 3..14) of writes (payload 1..40 bytes, 1/6 with a name, 1/8 repeating the key's last bytes, 1/10 with a wrong cookie; every 5th history mixes in EMPTY payloads) and deletes over 3 keys, run on a real Store volume; crash points of a history: every byte of the .dat from the start of its second-to-last record to its end (long histories: every 3rd byte; plus boundary, boundary+1 and middle of earlier records) combined with every number of whole .idx entries that write order allows (sampled for long histories), plus torn .idx entries, plus points where the index is ahead of the data (correspondence and safety only), plus occasionally a cut inside the super block; every crash point is a real Store.MountVolume of the truncated files followed by 4..7 further operations through the Store API (per history: overwrite / same bytes / wrong cookie / delete on the history's keys, a fresh key 9, a second operation on a touched key), a read of keys 1,2,3,9, then a second stop (Unmount, .idx cut by 0/7/9/16/25 bytes) and a second MountVolume with the same reads; each history yields one case (of at most 60 crash points) per class of its crash points (ordinary / tombstone-tail / torn-index); non-trivial = some reopened volume served a blob; distinct = canonical operations + crash points"
 
-	// the witnesses of the two repaired findings: independent of the seed
+	// the witnesses of the two repaired findings and of finding 0: independent of the seed
 	{
 		h := e.runHistory(witnessOps())
+		post := witnessPost()
 		// (was read-only) the index ends with the tombstone of key 1, the data file holds 5 bytes more
-		c0 := e.runCuts(h, keys, fresh, []cutSpec{{h.ends[3] + 5, 48}})
-		e.emit(h, keys, fresh, c0, "repaired-tombstone-then-torn-record")
+		c0 := e.runCuts(h, keys, post, []cutSpec{{h.ends[3] + 5, 48, 9}})
+		e.emit(h, keys, post, c0, "repaired-tombstone-then-torn-record")
 		// (was a panic) the second index entry is torn after 7 bytes
-		c1 := e.runCuts(h, keys, fresh, []cutSpec{{h.ends[2], 16 + 7}})
-		e.emit(h, keys, fresh, c1, "repaired-torn-index-entry")
+		c1 := e.runCuts(h, keys, post, []cutSpec{{h.ends[2], 16 + 7, 0}})
+		e.emit(h, keys, post, c1, "repaired-torn-index-entry")
+		// finding 0: a clean stop; key 2 (empty blob) is gone afterwards
+		h0 := e.runHistory(witnessEmptyOps())
+		c2 := e.runCuts(h0, keys, post, []cutSpec{{len(h0.dat), len(h0.idx), 0}})
+		e.emit(h0, keys, post, c2, "finding0-empty-blob-gone")
 	}
 
 	root := hx.NewRng(out.Seed)
@@ -565,16 +737,25 @@ func main() {
 		r := root.Fork()
 		nops := r.Range(3, 5)
 		all := true
+		stride := 1
 		if out.Tier == "thorough" && i%2 == 1 {
 			nops = r.Range(6, 14)
 			all = false
 		}
-		ops := genOps(r, nops)
+		if i == 0 && out.Seed%1000 == 0 { // bin/check: shard k runs with seed*1000+k
+			nops = r.Range(14, 16)
+			all = false
+			stride = 4
+		}
+		ops := genOps(r, nops, i%5 == 3)
 		h := e.runHistory(ops)
+		post := genPost(r, ops)
 		out.Count("histories", 1)
 		out.Count(fmt.Sprintf("records:%d", len(h.ends)-1), 1)
 		for _, o := range ops {
 			switch {
+			case o.write && len(o.data) == 0:
+				out.Count("op:write-empty-payload", 1)
 			case o.write && o.appended:
 				out.Count("op:write-appended", 1)
 			case o.write:
@@ -585,7 +766,7 @@ func main() {
 				out.Count("op:delete-noop", 1)
 			}
 		}
-		specs := genCuts(r, h, all)
+		specs := genCuts(r, h, all, stride)
 		groups := map[int][]cutSpec{}
 		for _, c := range specs {
 			t := trigOf(h, c)
@@ -596,13 +777,13 @@ func main() {
 				continue
 			}
 			kind := map[int]string{-1: "crash-points", 0: "crash-points-tombstone-tail", 1: "crash-points-torn-index"}[t]
-			// at most 120 crash points per case keeps the Coq terms small
-			for lo := 0; lo < len(groups[t]); lo += 120 {
-				hi := lo + 120
+			// at most 60 crash points per case keeps the Coq terms small
+			for lo := 0; lo < len(groups[t]); lo += 60 {
+				hi := lo + 60
 				if hi > len(groups[t]) {
 					hi = len(groups[t])
 				}
-				e.emit(h, keys, fresh, e.runCuts(h, keys, fresh, groups[t][lo:hi]), kind)
+				e.emit(h, keys, post, e.runCuts(h, keys, post, groups[t][lo:hi]), kind)
 			}
 		}
 	}
